@@ -13,6 +13,9 @@ REPS = {
     "varchar": ("varchar", [("''", 1), ("'B'", 2), ("'a'", 3), ("'a'", 3), ("'ab'", 4), ("'b'", 5)]),
     "date": ("date", [("date '1999-12-31'", 1), ("date '2000-02-29'", 2), ("date '2000-02-29'", 2), ("date '2000-03-01'", 3),
                       ("date '2024-01-01'", 4)]),
+    # field-wise (months, days, milliseconds): 30 days < 1 month; 12 months and 1 year are the same value
+    "interval": ("interval", [("interval '1' day", 1), ("interval '30' day", 2), ("interval '1' month", 3),
+                              ("interval '1' year", 4), ("interval '12' month", 4), ("interval '1' day", 1)]),
 }
 
 
